@@ -1,68 +1,370 @@
-import PbVerif.Model.StructAny
-import PbVerif.Props.Utf8Basics
+import PbVerif.Lemmas.StructAny
+import PbVerif.Lemmas.StructAnyUrl
+import PbVerif.Lemmas.StructAnyParams
+/-
+C45 — Struct, Value and Any conversions round-trip.
+
+All statements are about `Model.StructAny` (the model of the hand-written helpers of
+`types/known/structpb/struct.pb.go` and `types/known/anypb/any.pb.go`; see the header of Model/StructAny.lean
+for what each definition mirrors).  They hold for ALL value trees (no depth or size bound) and for ANY
+standard-library parameter `P : Params` (`float64(int)`, `float64(float32)`, `json.Number.Float64`, base64),
+unless the statement names the executable instance `goParams`.
+
+Go maps are unordered.  The model lists the entries of a map in *some* order; `Equiv a b` says that two trees
+differ only by such orders (its meaning: `equiv_adequate`).  Every law below is either literally independent of
+the order (both sides list the entries in the same order) or is accompanied by an `…_order_independent` /
+`…_anyOrder` theorem quantifying over all orders.  The one thing that *does* depend on the order is which error
+`NewStruct` reports when several entries are bad: `possibleErrs` is the exact set (`newValue_error_mem`,
+`possibleErrs_complete`).
+-/
 open Model Model.StructAny
+open Model.StructAny.Lem (okB OptEquiv Adequate ExRel)
 
 namespace C45
 
-mutual
-theorem asInterface_newValue (P : Params) : (v : GoVal) → (p : PV) → newValue P v = .ok p →
-    asInterface p = normalize P v
-  | .nil, p, h => by simp [newValue] at h; subst h; simp [asInterface, normalize]
-  | .bool b, p, h => by simp [newValue] at h; subst h; simp [asInterface, normalize]
-  | .int t v, p, h => by simp [newValue] at h; subst h; simp [asInterface, normalize]
-  | .uint t v, p, h => by simp [newValue] at h; subst h; simp [asInterface, normalize]
-  | .f32 b, p, h => by simp [newValue] at h; subst h; simp [asInterface, normalize]
-  | .f64 b, p, h => by simp [newValue] at h; subst h; simp [asInterface, normalize]
-  | .jnum s, p, h => by
-    simp only [newValue] at h
-    split at h
-    · rename_i f hf; simp at h; subst h; simp [asInterface, normalize, hf]
-    · simp at h
-  | .str s, p, h => by
-    simp only [newValue] at h
-    split at h
-    · simp at h; subst h; simp [asInterface, normalize]
-    · simp at h
-  | .bytes b, p, h => by simp [newValue] at h; subst h; simp [asInterface, normalize]
-  | .map n m, p, h => by
-    simp only [newValue] at h
-    split at h
-    · rename_i f hf; simp at h; subst h; simp [asInterface, normalize, asMap_newStruct P m f hf]
-    · simp at h
-  | .slice n l, p, h => by
-    simp only [newValue] at h
-    split at h
-    · rename_i f hf; simp at h; subst h; simp [asInterface, normalize, asSlice_newList P l f hf]
-    · simp at h
-  | .unsupported t, p, h => by simp [newValue] at h
-theorem asMap_newStruct (P : Params) : (m : GoMap) → (f : PFields) → newStruct P m = .ok f →
-    asMap f = normalizeMap P m
-  | .nil, f, h => by simp [newStruct] at h; subst h; simp [asMap, normalizeMap]
-  | .cons k v t, f, h => by
-    simp only [newStruct] at h
-    split at h
-    · split at h
-      · simp at h
-      · rename_i pv hv
-        split at h
-        · simp at h
-        · rename_i pt ht
-          simp at h; subst h
-          simp [asMap, normalizeMap, asInterface_newValue P v pv hv, asMap_newStruct P t pt ht]
-    · simp at h
-theorem asSlice_newList (P : Params) : (l : GoList) → (f : PList) → newList P l = .ok f →
-    asSlice f = normalizeList P l
-  | .nil, f, h => by simp [newList] at h; subst h; simp [asSlice, normalizeList]
-  | .cons v t, f, h => by
-    simp only [newList] at h
-    split at h
-    · simp at h
-    · rename_i pv hv
-      split at h
-      · simp at h
-      · rename_i pt ht
-        simp at h; subst h
-        simp [asSlice, normalizeList, asInterface_newValue P v pv hv, asSlice_newList P t pt ht]
-end
+/-! ## Part A: structpb -/
+
+/-! ### `NewValue(v).AsInterface() = normalize(v)` -/
+
+/-- the documented law, for every Go value tree that `NewValue` accepts -/
+theorem asInterface_newValue (P : Params) (v : GoVal) (p : PV) (h : newValue P v = .ok p) :
+    asInterface p = normalize P v := Lem.asInterface_newValue P v p h
+
+/-- `NewStruct(m).AsMap()` -/
+theorem asMap_newStruct (P : Params) (m : GoMap) (f : PFields) (h : newStruct P m = .ok f) :
+    asMap f = normalizeMap P m := Lem.asMap_newStruct P m f h
+
+/-- `NewList(l).AsSlice()` -/
+theorem asSlice_newList (P : Params) (l : GoList) (f : PList) (h : newList P l = .ok f) :
+    asSlice f = normalizeList P l := Lem.asSlice_newList P l f h
+
+/-- the law whatever order `NewStruct` ranges over the Go maps (`v'` is `v` listed in another order) and
+whatever order `AsMap` ranges over `Struct.Fields` (`p'` is `p` listed in another order) -/
+theorem asInterface_newValue_anyOrder (P : Params) {v v' : GoVal} {p p' : PV}
+    (hv : Equiv (.val v) (.val v')) (h : newValue P v' = .ok p) (hp : PEquiv (.val p) (.val p')) :
+    Equiv (.val (asInterface p')) (.val (normalize P v)) :=
+  Lem.asInterface_newValue_anyOrder P hv h hp
+
+/-- `normalize` is a projection: a normalized tree is a fixed point of the round trip's right-hand side -/
+theorem normalize_idempotent (P : Params) (v : GoVal) : normalize P (normalize P v) = normalize P v :=
+  Lem.normalize_idempotent P v
+
+/-! ### when `NewValue` succeeds -/
+
+/-- `NewValue` succeeds iff the tree contains no unsupported Go type, every string and every map key is valid
+UTF-8 and every `json.Number` parses — at every depth -/
+theorem newValue_ok_iff (P : Params) (v : GoVal) :
+    (∃ p, newValue P v = .ok p) ↔ supported P v = true := Lem.newValue_ok_iff P v
+
+theorem newStruct_ok_iff (P : Params) (m : GoMap) :
+    (∃ f, newStruct P m = .ok f) ↔ supportedMap P m = true := by
+  rw [← Lem.okB_newStruct, Lem.okB_iff]
+
+theorem newList_ok_iff (P : Params) (l : GoList) :
+    (∃ f, newList P l = .ok f) ↔ supportedList P l = true := by
+  rw [← Lem.okB_newList, Lem.okB_iff]
+
+/-- the verdict and the resulting Value do not depend on the map iteration order -/
+theorem newValue_order_independent (P : Params) {v v' : GoVal} (h : Equiv (.val v) (.val v')) :
+    ((∃ e, newValue P v = .error e) ↔ (∃ e, newValue P v' = .error e)) ∧
+    (∀ p p', newValue P v = .ok p → newValue P v' = .ok p' → PEquiv (.val p) (.val p')) := by
+  have := Lem.new_equiv P h
+  simp only [Node.new] at this
+  cases hv : newValue P v <;> cases hv' : newValue P v' <;> simp_all [Lem.ExRel, Except.map]
+
+theorem supported_order_independent (P : Params) {v v' : GoVal} (h : Equiv (.val v) (.val v')) :
+    supported P v = supported P v' := Lem.supported_equiv P h
+
+theorem normalize_order_independent (P : Params) {v v' : GoVal} (h : Equiv (.val v) (.val v')) :
+    Equiv (.val (normalize P v)) (.val (normalize P v')) := Lem.normalize_equiv P h
+
+/-- the error reported is one of `possibleErrs` … -/
+theorem newValue_error_mem (P : Params) (v : GoVal) (e : Err) (h : newValue P v = .error e) :
+    e ∈ possibleErrs P v := Lem.newValue_error_mem P v e h
+
+/-- … a set that does not depend on the order … -/
+theorem possibleErrs_order_independent (P : Params) {v v' : GoVal} (h : Equiv (.val v) (.val v')) (e : Err) :
+    e ∈ possibleErrs P v ↔ e ∈ possibleErrs P v' := Lem.possibleErrs_equiv P h e
+
+/-- … and every member of which is reported under some order -/
+theorem possibleErrs_complete (P : Params) (v : GoVal) (e : Err) (h : e ∈ possibleErrs P v) :
+    ∃ w, Equiv (.val v) (.val w) ∧ newValue P w = .error e := Lem.possibleErrs_complete P v e h
+
+/-- what `Equiv` means: the same outermost constructor for values; for maps the same keys and — when the keys
+are distinct, as in every Go map — equivalent values under every key; for slices equivalent elements at every
+index -/
+theorem equiv_adequate {a b : Node} (h : Equiv a b) : Adequate a b := Lem.equiv_adequate h
+
+/-! ### the converse direction: `NewValue(x.AsInterface()) = x` -/
+
+/-- for every Value tree without unset Values, with finite numbers and valid UTF-8 strings and keys;
+and for no other (`PV.wf` is necessary) -/
+theorem newValue_asInterface (P : Params) (p : PV) (h : p.wf = true) : newValue P (asInterface p) = .ok p :=
+  Lem.newValue_asInterface P p h
+
+theorem newValue_asInterface_iff (P : Params) (p : PV) :
+    newValue P (asInterface p) = .ok p ↔ p.wf = true := Lem.newValue_asInterface_iff P p
+
+/-! ### JSON: `encoding/json.Marshal(x.AsInterface())` against `protojson.Marshal(x)` -/
+
+/-- whenever protojson marshals the Value, encoding/json of `AsInterface` gives the same document -/
+theorem valueJSON_agrees (p : PV) (j : J) (h : protoJSON p = .ok j) : goJSON (asInterface p) = .ok j :=
+  Lem.goJSON_asInterface p j h
+
+/-- protojson marshals exactly the Values that `NewValue ∘ AsInterface` reproduces -/
+theorem protoJSON_ok_iff (p : PV) : (∃ j, protoJSON p = .ok j) ↔ p.wf = true := by
+  rw [← Lem.okB_protoJSON, Lem.okB_iff]
+
+/-! ### laws of the executable parameter instance -/
+
+/-- base64 text is valid UTF-8 (so the `[]byte` arm needs no check), 4·⌈n/3⌉ bytes long -/
+theorem base64_valid (s : Str) : Utf8.valid (b64 s) = true := Lem.b64_valid s
+theorem base64_length (s : Str) : (b64 s).length = 4 * ((s.length + 2) / 3) := Lem.b64_length s
+
+/-- `float64(i)` is finite for every value of a Go integer type -/
+theorem intToF64_finite (i : Int) (h : i.natAbs < 2 ^ 64) : f64Finite (intToF64 i) = true :=
+  Lem.intToF64_finite i h
+
+/-- hence an integer always comes back as a float64, never as one of the strings "NaN"/"Infinity" -/
+theorem normalize_int (pf : Str → Option F64) (t : IntTy) (i : Int) (h : i.natAbs < 2 ^ 64) :
+    normalize (goParams pf) (.int t i) = .f64 (intToF64 i) := by
+  simp [normalize, goParams, Lem.numIface_finite (intToF64_finite i h)]
+
+/-- below 2^53 the conversion is exact: `(1.frac) · 2^(e−1023) = n` -/
+theorem intToF64_exact (n : Nat) (h0 : 0 < n) (h : n < 2 ^ 53) :
+    1023 ≤ natToF64Mag n / 2 ^ 52 ∧ natToF64Mag n / 2 ^ 52 ≤ 1075 ∧
+    (2 ^ 52 + natToF64Mag n % 2 ^ 52) * 2 ^ (natToF64Mag n / 2 ^ 52 - 1023) = n * 2 ^ 52 :=
+  Lem.natToF64Mag_exact n h0 h
+
+/-- the documented precision loss above 2^53 -/
+theorem intToF64_precision_loss : intToF64 9007199254740993 = intToF64 9007199254740992 :=
+  Lem.intToF64_precision_loss
+
+/-! ## Part B: anypb -/
+
+section any
+variable {M : Type}
+
+theorem new_ok_iff (C : Codec M) (m : M) (a : AnyMsg) :
+    new C m = .ok a ↔ ∃ b, C.marshal m = some b ∧ a = ⟨urlPrefix ++ C.nameOf m, b⟩ := by
+  unfold new
+  cases C.marshal m <;> simp [eq_comm]
+
+theorem urlPrefix_split : urlPrefix = (urlPrefix.take 19) ++ [SLASH] := by decide
+
+/-- the suffix after the last '/' of the URL written by `New` is the message's full name -/
+theorem messageNameRaw_new (C : Codec M) (m : M) (a : AnyMsg) (h : new C m = .ok a)
+    (hn : SLASH ∉ C.nameOf m) : messageNameRaw a.typeURL = C.nameOf m := by
+  obtain ⟨b, _, rfl⟩ := (new_ok_iff C m a).mp h
+  simp only
+  rw [urlPrefix_split, List.append_assoc]
+  exact Lem.messageNameRaw_append_slash _ _ hn
+
+/-- `New(m).MessageName() = m`'s full name (a valid full name contains no '/') -/
+theorem messageName_new (C : Codec M) (m : M) (a : AnyMsg) (h : new C m = .ok a)
+    (hv : fullNameValid (C.nameOf m) = true) : messageName a.typeURL = C.nameOf m := by
+  simp [messageName, messageNameRaw_new C m a h (Lem.fullNameValid_noslash hv), hv]
+
+/-- `MessageName` characterised: the suffix `n` after the last '/' (the whole URL when it has none) when that
+is a valid full name, the empty string otherwise -/
+theorem messageName_suffix (url : Str) :
+    ∃ n, SLASH ∉ n ∧ (url = n ∨ ∃ p, url = p ++ SLASH :: n) ∧
+      messageName url = if fullNameValid n then n else [] :=
+  ⟨messageNameRaw url, (Lem.messageNameRaw_split url).1, (Lem.messageNameRaw_split url).2, rfl⟩
+
+/-- the suffix is unique: any split of the URL at a '/' with a slash-free right part gives it -/
+theorem messageName_of_split (p n : Str) (hv : fullNameValid n = true) :
+    messageName (p ++ SLASH :: n) = n ∧ messageName n = n := by
+  have hn := Lem.fullNameValid_noslash hv
+  simp [messageName, Lem.messageNameRaw_append_slash p n hn, Lem.messageNameRaw_of_noslash hn, hv]
+
+/-- the suffix characterised as an equivalence -/
+theorem messageNameRaw_iff (url n : Str) :
+    messageNameRaw url = n ↔ SLASH ∉ n ∧ (url = n ∨ ∃ p, url = p ++ SLASH :: n) :=
+  Lem.messageNameRaw_spec url n
+
+/-- `MessageIs(m)` holds iff the suffix after the last '/' is `m`'s full name — although the code compares with
+`strings.HasSuffix` and looks at one byte only (message names contain no '/') -/
+theorem messageIs_iff (url name : Str) (hn : SLASH ∉ name) :
+    messageIs url name = true ↔ messageNameRaw url = name := Lem.messageIs_iff url name hn
+
+/-- a valid full name contains no '/' -/
+theorem fullNameValid_noslash {s : Str} (h : fullNameValid s = true) : SLASH ∉ s :=
+  Lem.fullNameValid_noslash h
+
+theorem messageName_invalid (url : Str) (h : fullNameValid (messageNameRaw url) = false) :
+    messageName url = [] := by
+  simp [messageName, h]
+
+theorem messageIs_new (C : Codec M) (m : M) (a : AnyMsg) (h : new C m = .ok a)
+    (hn : SLASH ∉ C.nameOf m) : messageIs a.typeURL (C.nameOf m) = true :=
+  (Lem.messageIs_iff _ _ hn).mpr (messageNameRaw_new C m a h hn)
+
+theorem messageIs_new_other (C : Codec M) (m : M) (a : AnyMsg) (h : new C m = .ok a)
+    (hn : SLASH ∉ C.nameOf m) (n' : Str) (hn' : SLASH ∉ n') (hne : n' ≠ C.nameOf m) :
+    messageIs a.typeURL n' = false := by
+  rw [Bool.eq_false_iff]
+  intro hc
+  have := (Lem.messageIs_iff _ _ hn').mp hc
+  rw [messageNameRaw_new C m a h hn] at this
+  exact hne this.symm
+
+/-- `UnmarshalTo` in general: it decodes iff the URL's suffix is the destination's name -/
+theorem unmarshalTo_eq (C : Codec M) (a : AnyMsg) (n : Str) (hn : SLASH ∉ n) :
+    unmarshalTo C a n =
+      if messageNameRaw a.typeURL = n then
+        (match C.unmarshal n a.value with | some m => .ok m | none => .error .decode)
+      else .error .mismatch := by
+  unfold unmarshalTo
+  by_cases h : messageNameRaw a.typeURL = n
+  · cases hu : C.unmarshal n a.value <;> simp [h, (Lem.messageIs_iff _ _ hn).mpr h]
+  · have : messageIs a.typeURL n = false := by
+      rw [Bool.eq_false_iff]; exact fun hc => h ((Lem.messageIs_iff _ _ hn).mp hc)
+    simp [h, this]
+
+theorem unmarshalTo_new (C : Codec M) (hrt : C.RoundTrip) (m : M) (a : AnyMsg) (h : new C m = .ok a)
+    (hn : SLASH ∉ C.nameOf m) : unmarshalTo C a (C.nameOf m) = .ok m := by
+  rw [unmarshalTo_eq C a _ hn, if_pos (messageNameRaw_new C m a h hn)]
+  obtain ⟨b, hb, rfl⟩ := (new_ok_iff C m a).mp h
+  simp [hrt m b hb]
+
+theorem unmarshalTo_mismatch (C : Codec M) (m : M) (a : AnyMsg) (h : new C m = .ok a)
+    (hn : SLASH ∉ C.nameOf m) (n' : Str) (hn' : SLASH ∉ n') (hne : n' ≠ C.nameOf m) :
+    unmarshalTo C a n' = .error .mismatch := by
+  simp [unmarshalTo, messageIs_new_other C m a h hn n' hn' hne]
+
+theorem unmarshalNew_new (C : Codec M) (hrt : C.RoundTrip) (r : Resolver) (m : M) (a : AnyMsg)
+    (h : new C m = .ok a) (hn : SLASH ∉ C.nameOf m) (hr : r.find (C.nameOf m) = some true) :
+    unmarshalNew C r a = .ok m := by
+  have hraw := messageNameRaw_new C m a h hn
+  obtain ⟨b, hb, rfl⟩ := (new_ok_iff C m a).mp h
+  have hne : urlPrefix ++ C.nameOf m ≠ [] := by
+    intro hc; have := congrArg List.length hc; simp [urlPrefix] at this
+  simp only at hraw
+  simp [unmarshalNew, hne, hraw, hr, hrt m b hb]
+
+theorem unmarshalNew_unknown (C : Codec M) (r : Resolver) (a : AnyMsg) (hne : a.typeURL ≠ [])
+    (hr : r.find (messageNameRaw a.typeURL) = none) : unmarshalNew C r a = .error .notFound := by
+  simp [unmarshalNew, hne, hr]
+
+theorem unmarshalNew_wrongType (C : Codec M) (r : Resolver) (a : AnyMsg) (hne : a.typeURL ≠ [])
+    (hr : r.find (messageNameRaw a.typeURL) = some false) : unmarshalNew C r a = .error .wrongType := by
+  simp [unmarshalNew, hne, hr]
+
+theorem unmarshalNew_empty (C : Codec M) (r : Resolver) (v : Str) :
+    unmarshalNew C r ⟨[], v⟩ = .error .emptyURL := by
+  simp [unmarshalNew]
+
+/-- `UnmarshalNew` = `UnmarshalTo` into a fresh message of the resolved type -/
+theorem unmarshalNew_eq_unmarshalTo (C : Codec M) (r : Resolver) (a : AnyMsg) (hne : a.typeURL ≠ [])
+    (hr : r.find (messageNameRaw a.typeURL) = some true) :
+    unmarshalNew C r a = unmarshalTo C a (messageNameRaw a.typeURL) := by
+  rw [unmarshalTo_eq C a _ (Lem.messageNameRaw_split a.typeURL).1]
+  cases hu : C.unmarshal (messageNameRaw a.typeURL) a.value <;> simp [unmarshalNew, hne, hr, hu]
+
+end any
+
+
+/-! ## Non-vacuity: the hypotheses are satisfiable by non-trivial values -/
+
+section examples
+
+def kA : Str := [0x61#8]            -- "a"
+def kK : Str := [0x6B#8]            -- "k"
+def kBad : Str := [0xFF#8]          -- not UTF-8
+def nanBits : F64 := 0x7FF8000000000001#64
+
+theorem valid_kA : Utf8.valid kA = true := Utf8.valid_of_ascii _ (by decide)
+theorem valid_kK : Utf8.valid kK = true := Utf8.valid_of_ascii _ (by decide)
+theorem valid_nil : Utf8.valid [] = true := Utf8.valid_of_ascii _ (by decide)
+theorem valid_kBad : Utf8.valid kBad = false := by
+  unfold Utf8.valid kBad
+  have : Utf8.isInvalid (Utf8.decodeRune [0xFF#8]) = true := by decide
+  simp [this]
+
+/-- `{"a": [int64(-5), []byte{0xff}, nil], "": map[string]any(nil), "k": NaN}` -/
+def vEx : GoVal :=
+  .map false (.cons kA (.slice false (.cons (.int .i64 (-5)) (.cons (.bytes [0xFF#8]) (.cons .nil .nil))))
+    (.cons [] (.map true .nil) (.cons kK (.f64 nanBits) .nil)))
+
+/-- `NewValue` accepts it (whatever the parameters), nested two levels deep … -/
+example (P : Params) : newValue P vEx =
+    .ok (.struct (.cons kA (.list (.cons (.number (P.i2f (-5))) (.cons (.string (P.base64 [0xFF#8])) (.cons .null .nil))))
+      (.cons [] (.struct .nil) (.cons kK (.number nanBits) .nil)))) := by
+  simp [vEx, newValue, newStruct, newList, valid_kA, valid_kK, valid_nil]
+
+/-- … and comes back normalized: the nil map is an empty map, the NaN is the string "NaN" -/
+example (P : Params) : normalize P vEx =
+    .map false (.cons kA (.slice false (.cons (numIface (P.i2f (-5))) (.cons (.str (P.base64 [0xFF#8])) (.cons .nil .nil))))
+      (.cons [] (.map false .nil) (.cons kK (.str sNaN) .nil))) := by
+  have hn : f64IsNaN nanBits = true := by decide
+  have : numIface nanBits = .str sNaN := by simp [numIface, hn]
+  simp [vEx, normalize, normalizeMap, normalizeList, this]
+
+/-- with the executable parameters: -5 ↦ 0xC014000000000000, 0xff ↦ "/w==" -/
+example : intToF64 (-5) = 0xC014000000000000#64 ∧ b64 [0xFF#8] = [0x2F#8, 0x77#8, 0x3D#8, 0x3D#8] := by decide
+
+/-- `NewValue` accepts NaN, protojson refuses the result, encoding/json prints the string -/
+example (P : Params) : newValue P (.f64 nanBits) = .ok (.number nanBits) ∧
+    protoJSON (.number nanBits) = .error .nonfinite ∧
+    goJSON (asInterface (.number nanBits)) = .ok (.str sNaN) := by
+  have h1 : f64Finite nanBits = false := by decide
+  have hn : f64IsNaN nanBits = true := by decide
+  have h2 : numIface nanBits = .str sNaN := by simp [numIface, hn]
+  have h3 : Utf8.valid sNaN = true := Utf8.valid_of_ascii _ (by decide)
+  simp [newValue, protoJSON, asInterface, goJSON, h1, h2, h3]
+
+/-- errors come out of nested values: a bad key three levels down, an unsupported element -/
+example (P : Params) :
+    newValue P (.slice false (.cons (.map false (.cons kA (.map false (.cons kBad .nil .nil)) .nil)) .nil))
+      = .error .utf8 := by
+  simp [newValue, newStruct, newList, valid_kA, valid_kBad]
+
+example (P : Params) : newValue P (.slice false (.cons (.bool true) (.cons (.unsupported 3) .nil))) = .error .type := by
+  simp [newValue, newList]
+
+/-- the reported error really depends on the map order: `{"\xff": nil, "a": <chan>}` -/
+example (P : Params) :
+    newValue P (.map false (.cons kBad .nil (.cons kA (.unsupported 0) .nil))) = .error .utf8 ∧
+    newValue P (.map false (.cons kA (.unsupported 0) (.cons kBad .nil .nil))) = .error .type ∧
+    possibleErrs P (.map false (.cons kBad .nil (.cons kA (.unsupported 0) .nil))) = [.utf8, .type] ∧
+    Equiv (.val (.map false (.cons kBad .nil (.cons kA (.unsupported 0) .nil))))
+      (.val (.map false (.cons kA (.unsupported 0) (.cons kBad .nil .nil)))) := by
+  refine ⟨?_, ?_, ?_, .vmap false (.swap ..)⟩ <;>
+    simp [newValue, newStruct, possibleErrs, possibleErrsMap, valid_kA, valid_kBad]
+
+/-- a well-formed Value with nesting; the unset Value is not -/
+example : (PV.struct (.cons kA (.list (.cons (.number 0#64) (.cons (.struct .nil) .nil))) .nil)).wf = true := by
+  have : f64Finite 0#64 = true := by decide
+  simp [PV.wf, PFields.wf, PList.wf, valid_kA, this]
+
+example (P : Params) : newValue P (asInterface (.list (.cons .unset .nil))) = .ok (.list (.cons .null .nil)) := by
+  simp [asInterface, asSlice, newValue, newList]
+
+/-- a codec whose messages are (name, bytes) pairs: the round-trip hypothesis is satisfiable -/
+def pairCodec : Codec (Str × Str) :=
+  { nameOf := fun m => m.1, marshal := fun m => some m.2, unmarshal := fun n b => some (n, b) }
+
+example : pairCodec.RoundTrip := by
+  intro m b h; simp [pairCodec] at h ⊢; subst h; rfl
+
+/-- "a.B" -/
+def nAB : Str := [0x61#8, 0x2E#8, 0x42#8]
+
+example : fullNameValid nAB = true ∧ messageName (urlPrefix ++ nAB) = nAB ∧
+    messageIs (urlPrefix ++ nAB) nAB = true ∧ messageIs (urlPrefix ++ nAB) [0x42#8] = false := by decide
+
+/-- hand-made URLs: "", "/", "x/y/a.B", "a.B", "h//a.B", "a.B/", "a/b c" -/
+example : messageName [] = [] ∧ messageName [SLASH] = [] ∧
+    messageName ([0x78#8, SLASH, 0x79#8, SLASH] ++ nAB) = nAB ∧ messageName nAB = nAB ∧
+    messageName ([0x68#8, SLASH, SLASH] ++ nAB) = nAB ∧ messageName (nAB ++ [SLASH]) = [] ∧
+    messageName [0x61#8, SLASH, 0x62#8, 0x20#8, 0x63#8] = [] := by decide
+
+example : unmarshalNew pairCodec [(nAB, true)] ⟨urlPrefix ++ nAB, [1#8]⟩ = .ok (nAB, [1#8]) ∧
+    unmarshalNew pairCodec [(nAB, false)] ⟨urlPrefix ++ nAB, []⟩ = .error .wrongType ∧
+    unmarshalNew pairCodec [] ⟨urlPrefix ++ nAB, []⟩ = .error .notFound ∧
+    unmarshalTo pairCodec ⟨urlPrefix ++ nAB, []⟩ [0x42#8] = .error .mismatch := ⟨rfl, rfl, rfl, rfl⟩
+
+end examples
 
 end C45
